@@ -45,6 +45,11 @@ PROPS = {
              "trusted: simdisk clean-close model (all written bytes survive); the reopen sequence mirrors launch.LoadDatabase",
              SIM + "; enumeration of all quiescent restart points per history on the simulated disk",
              level="fault_enumeration"),
+    "C21": P("storeh",
+             "For every generated history (blocks with few, >128 and >333 states; permanent merges whose parallel batch order the seeded scheduler decides) every disk-operation index inside every block-write and permanent-merge phase is a crash point in three modes (process crash, torn write, power loss); the simulated disk is rebuilt at that point, the storage re-opened with launch's sequence, and every read must equal the chain up to the visible last height, with acknowledged blocks surviving process crashes. Enumeration is exhaustive per history up to the point budget, tape-sampled beyond (reported in the evidence).",
+             "trusted: simdisk crash models; goleveldb recovery runs as shipped; a failed reopen is counted, not judged",
+             SIM + "; crash-point enumeration over the simulated disk's operation log",
+             level="fault_enumeration"),
 }
 
 NOT_APPLICABLE = {
